@@ -74,6 +74,14 @@ CLAIMED = {
         "Random programs are executed on the real torch and tensorflow classes and compared step by step with the model.",
    technique="Lean 4 proof (refinement between two interpreters, induction over programs, parametric in the scalar type) + differential correspondence on random programs, both frameworks",
    design="§5 C10"),
+ "C11": dict(
+   text="Theorems (Props/C11.lean) over a transcription of get_components / remove_components / get_point_index: the selected component carries exactly the requested names, the i-th selected point is the source point "
+        "offset + index-of-name, every requested name exists, colours and format are kept (select_component); the limbs of the selection connect the same NAMED points as before and lie within the new point list (select_limbs_names); "
+        "get_point_index of the first component with a name is its running offset plus the index of the point (pointIndex_go); removing components / points is by definition selecting the complement, absent names ignored "
+        "(remove_eq_select_complement, remove_points_eq_select). The real calls are run on generated multi-component poses and compared with the model and, point by point and limb by limb by NAME, with the source; the known-format helpers "
+        "(hide / remove legs, wrist correction, holistic reduction) are checked on OpenPose and Holistic-shaped headers on the implementation (only the named points change) — partial: helpers are not modelled in Lean.",
+   technique="Lean 4 proof (list/index reasoning over the header transcription) + differential correspondence and name-level oracle",
+   design="§5 C11"),
  "C16": dict(
    text="Theorems (Props/C16.lean): frame selection returns exactly frames ixs[0], ixs[1], … (select_exact); stepping by k ≥ 1 returns frames 0, k, 2k, … all below the frame count and fps / k (step_exact); for EVERY draw the generic dropout's kept list "
         "is strictly increasing, within range, the exact complement of the draw (dropout_kept), of length n − k (dropout_length), drops nothing at fraction 0, drops ⌊n·p⌋ frames i.e. within one frame of n·p (dropout_count), and keeps ≥ 1 frame because the cap "
